@@ -223,13 +223,36 @@ impl<'a> Gen<'a> {
             _ => { let _ = &n64; frame(&enc_msg(&[(b"SRV\0", self.srv.clone()), (b"ZZZZ", vec![0u8; len - 12 - 16 - 32])])) } // framed, SRV only
         }
     }
+    /// A valid request of either protocol in which ONE header word (the tag count or one value offset) is replaced
+    /// by a boundary value: around the length of the value area, around the length of the whole message, around the
+    /// header length, around its neighbours, unaligned, huge. (Seeded change C08-r5: an offset checked against the
+    /// message length instead of the value area passed the check and the slice panicked.)
+    pub fn near_valid_header(&mut self) -> Vec<u8> {
+        let mut d = self.valid_any();
+        let base = if d.starts_with(b"ROUGHTIM") { 12 } else { 0 };
+        let msg_len = (d.len() - base) as i64;
+        let n = u32::from_le_bytes([d[base], d[base + 1], d[base + 2], d[base + 3]]) as usize;
+        if n < 2 { return d; }
+        let header = (4 + 4 * (n - 1) + 4 * n) as i64;
+        let area = msg_len - header;
+        let k = self.r.below(n as u64) as usize; // 0 = the tag count, 1..n-1 = offset k
+        let pos = base + 4 * k;
+        let cur = u32::from_le_bytes([d[pos], d[pos + 1], d[pos + 2], d[pos + 3]]) as i64;
+        let anchors = [area, msg_len, header, cur, 0, msg_len + base as i64, d.len() as i64, 1 << 16, 0x1_0000_0000 - 4];
+        let a = *self.r.pick(&anchors);
+        let delta = *self.r.pick(&[0i64, 4, -4, 8, -8, 12, -12, 16, 1, -1, 2, 64, -64]);
+        let v = if k == 0 { *self.r.pick(&[0i64, 1, (n as i64) - 1, (n as i64) + 1, 18, 19, 1024, 1025, 0xffff_ffff]) } else { (a + delta).max(0) };
+        d[pos..pos + 4].copy_from_slice(&(v as u32).to_le_bytes());
+        d
+    }
     /// near-valid mutant or junk
     pub fn invalid(&mut self) -> Vec<u8> {
         if self.r.chance(1, 6) {
             let k = self.r.below(Self::DEGENERATE_KINDS as u64) as usize;
             return self.degenerate(k);
         }
-        match self.r.below(18) {
+        match self.r.below(22) {
+            18 | 19 | 20 | 21 => self.near_valid_header(),
             0 => vec![],
             1 => { let n = self.r.below(64) as usize; self.r.bytes(n) }
             2 => { let n = *self.r.pick(&[1023usize, 1024, 1500, 1501, 1499, 1025]); self.r.bytes(n) }
